@@ -159,11 +159,14 @@ class EWMean(Aggregation):
 
     def on_new(self, acc, new):
         result, old_wt, is_first = acc
+        if is_first and not len(result):
+            # initialised from an empty batch: the first row to arrive seeds the mean
+            result = new.iloc[:1]
         for i in range(int(is_first), len(new)):
             old_wt *= self.old_wt_factor
             result = ((old_wt * result) + (self.new_wt * new.iloc[i])) / (old_wt + self.new_wt)
             old_wt += self.new_wt
-        return (result, old_wt, False), result
+        return (result, old_wt, is_first and not len(result)), result
 
     def on_old(self, acc, old):
         pass
